@@ -288,7 +288,8 @@ class StdEncryptor:
     P              signed 32-bit permissions
     id_mode        "present" | "empty" | "absent" ; id0/id1 the two ID strings when present
     encrypt_metadata   V>=4 only
-    opts           write_length (V2: write /Length), cf_absent (Identity: omit /CF),
+    opts           write_length (write /Length; may be False for V2 with 40 bits and for V4/V5), cf_length (write the
+                   crypt filter's own /Length; always written for CFM V2), cf_absent (Identity: omit /CF),
                    identity_default (Identity: omit StmF/StrF, relying on the default),
                    encrypt_direct (Encrypt dictionary direct in the trailer), hex_id
     """
@@ -368,12 +369,17 @@ class StdEncryptor:
     # -- dictionary --------------------------------------------------------
     def encrypt_dict(self) -> Dict[str, Any]:
         d: Dict[str, Any] = {"Filter": Name("Standard"), "V": self.V, "R": self.R}
-        if self.V == 2 and self.opts.get("write_length", True):
-            d["Length"] = self.bits
-        if self.V == 4:
-            d["Length"] = 128
-        if self.V == 5:
-            d["Length"] = 256
+        # Table 20: /Length is "only if V is 2 or 3" (default 40).  For V4/V5 the key length is fixed by the
+        # crypt filter (128 / 256), the strictly conformant dictionary has no /Length; Acrobat writes 128 / 256.
+        if self.opts.get("write_length", True):
+            if self.V == 2:
+                d["Length"] = self.bits
+            elif self.V == 4:
+                d["Length"] = 128
+            elif self.V == 5:
+                d["Length"] = 256
+        else:
+            assert self.V >= 4 or (self.V == 2 and self.bits == 40)
         if self.V >= 4:
             if self.cfm == "Identity":
                 if not self.opts.get("cf_absent", False):
@@ -382,8 +388,10 @@ class StdEncryptor:
                     d["StmF"] = Name("Identity")
                     d["StrF"] = Name("Identity")
             else:
-                d["CF"] = {"StdCF": {"Type": Name("CryptFilter"), "CFM": Name(self.cfm), "AuthEvent": Name("DocOpen"),
-                                     "Length": self.bits // 8}}
+                cf: Dict[str, Any] = {"Type": Name("CryptFilter"), "CFM": Name(self.cfm), "AuthEvent": Name("DocOpen")}
+                if self.opts.get("cf_length", True) or self.cfm == "V2":
+                    cf["Length"] = self.bits // 8      # Table 25 (optional); the standard handler counts bytes
+                d["CF"] = {"StdCF": cf}
                 d["StmF"] = Name("StdCF")
                 d["StrF"] = Name("StdCF")
             if not self.encrypt_metadata:
